@@ -38,6 +38,7 @@ type Prog struct {
 	rolesCache    *Roles
 	reach         map[*ssa.Function]bool
 	reqReach      map[*ssa.Function]bool
+	globStores    map[*ssa.Global][]ssa.Value
 	leaderCbs     map[string][]*ssa.Function
 	batchCache    []*batchModel
 	lockCache     *lockCtx
@@ -445,6 +446,14 @@ func (p *Prog) funcValues(v ssa.Value, depth int) []*ssa.Function {
 				}
 				return out
 			}
+			if g, ok := v.X.(*ssa.Global); ok {
+				// package-level function variable: every function stored into it anywhere in the repo
+				var out []*ssa.Function
+				for _, sv := range p.globalStores(g) {
+					out = append(out, p.funcValues(sv, depth+1)...)
+				}
+				return out
+			}
 			if fv, ok := v.X.(*ssa.FreeVar); ok {
 				// captured variable: find binding in MakeClosure sites
 				var out []*ssa.Function
@@ -707,4 +716,23 @@ func (p *Prog) requestReachable() map[*ssa.Function]bool {
 	}
 	p.reqReach = reach
 	return reach
+}
+
+// globalStores: the values stored into a package-level variable by any repo function (including initialisers).
+func (p *Prog) globalStores(g *ssa.Global) []ssa.Value {
+	if p.globStores == nil {
+		p.globStores = map[*ssa.Global][]ssa.Value{}
+		for _, f := range p.allFuncsWithInit() {
+			for _, b := range f.Blocks {
+				for _, ins := range b.Instrs {
+					if st, ok := ins.(*ssa.Store); ok {
+						if gg, ok := st.Addr.(*ssa.Global); ok {
+							p.globStores[gg] = append(p.globStores[gg], st.Val)
+						}
+					}
+				}
+			}
+		}
+	}
+	return p.globStores[g]
 }
